@@ -472,7 +472,17 @@ func writeReplay(eng *Engine, dir, prop string, o *Obligation) (string, bool) {
 	rec["solver_outputs"] = outs
 	replayed := false
 	if o.Result.Status != "sat" && o.Result.Status != "unsat" && o.queryFile != "" && (o.Kind == "post" || o.Kind == "bounds" || o.Kind == "nil" || o.Kind == "div" || o.Kind == "panic" || o.Kind == "pre-panic" || o.Kind == "conv") {
-		// no model: concretisation search over small random inputs
+		// no model. First try the query without the assumed facts that carry
+		// quantifiers (earlier postconditions, callee ensures): a model of the
+		// weaker query is only a candidate; it counts only if it replays.
+		if wf, ok := weakenedModel(o.queryFile); ok {
+			o.queryFile = wf
+			o.weakened = true
+			rec["status"] = "sat (with quantified assumptions left out; candidate input only)"
+		}
+	}
+	if !o.weakened && o.Result.Status != "sat" && o.Result.Status != "unsat" && o.queryFile != "" && (o.Kind == "post" || o.Kind == "bounds" || o.Kind == "nil" || o.Kind == "div" || o.Kind == "panic" || o.Kind == "pre-panic" || o.Kind == "conv") {
+		// concretisation search over small random inputs
 		seed := int64(1)
 		if s := os.Getenv("VERIF_SEED"); s != "" {
 			if n, err := strconv.ParseInt(s, 10, 64); err == nil {
@@ -485,7 +495,7 @@ func writeReplay(eng *Engine, dir, prop string, o *Obligation) (string, bool) {
 			rec["status"] = "sat (after fixing the inputs to concrete values)"
 		}
 	}
-	if o.Result.Status == "sat" || len(o.pins) > 0 {
+	if o.Result.Status == "sat" || len(o.pins) > 0 || o.weakened {
 		if rp := safeReplay(eng, o, dir, name); rp != nil {
 			rec["replay"] = rp
 			if ok, _ := rp["confirmed"].(bool); ok {
